@@ -5,6 +5,7 @@ SELECT = r'^bluetoe::link_layer::channel_map::|^bluetoe::link_layer::in_map$|^bl
 UNITS = lambda u: u in ('lib_channel_map', 'w_inst_ll') or u.startswith('t_link_layer_channel_map')
 CM = 'bluetoe::link_layer::channel_map::'
 SPEC_MAX_LATENCY = 499   # Core 5.x Vol 6 Part B 4.5.1: connPeripheralLatency 0..499 (bluetoe: maximum_link_layer_peripheral_latency, enforced by link_layer::parameters_valid)
+ALSO = [('C23', ('latency-bounded',))]   # a channel map takes effect at its instant only if the latency planner does not sleep over it: decided by C23's rule, run here as well
 META = {
     'level': 'decides the second sentence of the property and the step structure of the algorithm: in channel_map::reset every store to the channel table (and the return true) is dominated by the '
              'failed tests hop < 5 || hop > 16 and used_channels_count < 2, so an invalid request leaves the table untouched; the connect path enters `connecting` only if reset() returned true; '
